@@ -2,6 +2,52 @@
 //! tools/translate.py turns this into Generated.v.
 use flacenc::constant as c;
 
+fn pack(tag: u64, xbits: u64, xval: u64) -> u64 { (tag << 24) | (xbits << 16) | xval }
+
+/// Complete graphs of the finite header-code functions, one packed number per argument.
+pub fn dump_tables() {
+    use flacenc::bitsink::ByteSink;
+    use flacenc::component::{BitRepr, ChannelAssignment, FrameHeader, FrameOffset};
+    // Block-size and sample-rate codes are private enums; observe them through the bytes of a
+    // frame header (tag nibbles in byte 2, extra bits at the end, before the CRC byte).
+    let hdr = |block: usize, rate: usize| -> Option<Vec<u8>> {
+        let h = FrameHeader::new(block, ChannelAssignment::Independent(1), 16, rate, FrameOffset::Frame(0)).ok()?;
+        let mut s = ByteSink::new(); h.write(&mut s).ok()?; Some(s.into_inner())
+    };
+    let mut line = String::from("table block_size");
+    for n in 1..=32767usize {
+        let b = hdr(n, 44100).unwrap();
+        let tag = (b[2] >> 4) as u64;
+        let extra = &b[5..b.len() - 1];
+        let (xbits, xval) = match extra.len() { 0 => (0, 0), 1 => (8, extra[0] as u64), _ => (16, ((extra[0] as u64) << 8) | extra[1] as u64) };
+        line.push_str(&format!(" {}", pack(tag, xbits, xval)));
+    }
+    println!("{}", line);
+    let mut line = String::from("table sample_rate");
+    for f in 1..=96000usize {
+        // FrameHeader::new rejects rates without a code; the encoder then writes code 0
+        // ("take it from STREAMINFO"), which is what the table records.
+        let b = match hdr(192, f) { Some(b) => b, None => { line.push_str(" 0"); continue; } };
+        let tag = (b[2] & 15) as u64;
+        let extra = &b[5..b.len() - 1];
+        let (xbits, xval) = match extra.len() { 0 => (0, 0), 1 => (8, extra[0] as u64), _ => (16, ((extra[0] as u64) << 8) | extra[1] as u64) };
+        line.push_str(&format!(" {}", pack(tag, xbits, xval)));
+    }
+    println!("{}", line);
+    let mut line = String::from("table sample_size");
+    for bits in [8usize, 12, 16, 20, 24] {
+        let h = FrameHeader::new(192, ChannelAssignment::Independent(1), bits, 44100, FrameOffset::Frame(0)).unwrap();
+        let mut s = ByteSink::new(); h.write(&mut s).unwrap(); let b = s.into_inner();
+        line.push_str(&format!(" {}", ((bits as u64) << 8) | ((b[3] >> 1) & 7) as u64));
+    }
+    println!("{}", line);
+    let mut line = String::from("table utf8_size");
+    for v in [0u64, 127, 128, 2047, 2048, 65535, 65536, (1 << 21) - 1, 1 << 21, (1 << 26) - 1, 1 << 26, (1 << 31) - 1, 1 << 31, (1 << 36) - 1] {
+        line.push_str(&format!(" {}", (v << 8) | flacenc::verif::bitrepr::utf8like_size(v as usize) as u64));
+    }
+    println!("{}", line);
+}
+
 pub fn dump() {
     println!("const MIN_BLOCK_SIZE {}", c::MIN_BLOCK_SIZE);
     println!("const MAX_BLOCK_SIZE {}", c::MAX_BLOCK_SIZE);
@@ -26,4 +72,5 @@ pub fn dump() {
     println!("const DEFAULT_ENTROPY_ESTIMATOR_PARTITIONS {}", flacenc::verif::constants::DEFAULT_ENTROPY_ESTIMATOR_PARTITIONS);
     println!("const MAX_ENTROPY_ESTIMATOR_PARTITIONS {}", flacenc::verif::constants::MAX_ENTROPY_ESTIMATOR_PARTITIONS);
     println!("const PAR_FRAMEBUF_MULTIPLICITY {}", c::par::FRAMEBUF_MULTIPLICITY);
+    dump_tables();
 }
